@@ -38,6 +38,7 @@ import itertools
 
 from ..cfg import CFG, branch_facts
 from ..normalize import inline_helpers
+from ..lib_C15 import inline_tail_call
 from ..core import (AnalysisError, call_name, enclosing_stmt, find_calls,
                     kwarg, last_attr, names_in, short, txt, walk)
 
@@ -1188,8 +1189,9 @@ def _num(e, env):
 def r165(ctx, repo):
     # extracted private helpers are read as part of the method; the scale
     # helper is an anchor and stays a call
-    f = split_tuple_assigns(inline_helpers(repo, CORE, repo.func(
-        CORE, "RTDCBase.get_downsampled_scatter"), keep=("_apply_scale",)))
+    f = split_tuple_assigns(inline_helpers(repo, CORE, inline_tail_call(
+        repo, CORE, repo.func(CORE, "RTDCBase.get_downsampled_scatter")),
+        keep=("_apply_scale",)))
     calls = find_calls(f, attr="downsample_grid")
     if len(calls) != 1:
         raise AnalysisError("get_downsampled_scatter: downsample_grid call "
@@ -2061,4 +2063,64 @@ TWINS = [
       ("        x = self[xax][self.filter.all]\n"
        "        y = self[yax][self.filter.all]\n",
        "        x, y = self._get_filtered_xy(xax, yax)\n", 0)]),
+    ('refactoring 5: scatter computed by a module-level worker', CORE,
+     [('class RTDCBase(abc.ABC):\n',
+       'def _downsampled_scatter(ds, xax, yax, downsample, xscale, yscale,\n'
+       '                         remove_invalid, ret_mask):\n'
+       '    """Grid-downsample the filtered events of `ds`\n'
+       '\n'
+       '    Worker of :func:`RTDCBase.get_downsampled_scatter`, which\n'
+       '    validates and normalizes the arguments (see there).\n'
+       '    """\n'
+       '    # Get data\n'
+       '    x = ds[xax][ds.filter.all]\n'
+       '    y = ds[yax][ds.filter.all]\n'
+       '\n'
+       '    # Apply scale (no change for linear scale)\n'
+       '    xs = RTDCBase._apply_scale(x, xscale, xax)\n'
+       '    ys = RTDCBase._apply_scale(y, yscale, yax)\n'
+       '\n'
+       '    _, _, idx = downsampling.downsample_grid(xs, ys,\n'
+       '                                             samples=downsample,\n'
+       '                                             '
+       'remove_invalid=remove_invalid,\n'
+       '                                             ret_idx=True)\n'
+       '\n'
+       '    if ret_mask:\n'
+       '        # Mask is a boolean array of len(ds)\n'
+       '        mask = np.zeros(len(ds), dtype=bool)\n'
+       '        mids = np.where(ds.filter.all)[0]\n'
+       '        mask[mids] = idx\n'
+       '        return x[idx], y[idx], mask\n'
+       '    else:\n'
+       '        return x[idx], y[idx]\n'
+       '\n'
+       '\n'
+       'class RTDCBase(abc.ABC):\n'),
+      ('        # Get data\n'
+       '        x = self[xax][self.filter.all]\n'
+       '        y = self[yax][self.filter.all]\n'
+       '\n'
+       '        # Apply scale (no change for linear scale)\n'
+       '        xs = RTDCBase._apply_scale(x, xscale, xax)\n'
+       '        ys = RTDCBase._apply_scale(y, yscale, yax)\n'
+       '\n'
+       '        _, _, idx = downsampling.downsample_grid(xs, ys,\n'
+       '                                                 samples=downsample,\n'
+       '                                                 '
+       'remove_invalid=remove_invalid,\n'
+       '                                                 ret_idx=True)\n'
+       '\n'
+       '        if ret_mask:\n'
+       '            # Mask is a boolean array of len(self)\n'
+       '            mask = np.zeros(len(self), dtype=bool)\n'
+       '            mids = np.where(self.filter.all)[0]\n'
+       '            mask[mids] = idx\n'
+       '            return x[idx], y[idx], mask\n'
+       '        else:\n'
+       '            return x[idx], y[idx]\n',
+       '        return _downsampled_scatter(self, xax, yax, downsample, '
+       'xscale,\n'
+       '                                    yscale, remove_invalid, '
+       'ret_mask)\n')]),
 ]
